@@ -352,6 +352,20 @@ def _range_pair(rng, stat):
 # ------------------------------------------------------------------------------------------------
 # stream 1: correspondence (model <-> real rewrite methods), no index involved
 
+def _set_not_boosts(q, b, depth=0):
+    from whoosh import query as Q
+    if isinstance(q, Q.Not):
+        q.boost = b
+    if depth > 40:
+        return
+    try:
+        kids = list(q.children())
+    except Exception:  # noqa
+        kids = []
+    for k in kids:
+        _set_not_boosts(k, b, depth + 1)
+
+
 def _corr_worker(job):
     seed, n, prof = job
     rng = random.Random(seed)
@@ -364,6 +378,14 @@ def _corr_worker(job):
         depth = rng.choice([1, 2, 2, 3, 3, 4])
         q = G.gen_query(rng, depth, prof)
         q2 = G.gen_query(rng, rng.choice([0, 1, 2]), prof)
+        # Node-for-node stream only: all Not nodes of one case carry the same (per-case random) boost.  Two clauses
+        # that differ in boosts of Not nodes only are `==` for Python (Not.__eq__ ignores the boost, compound hashes
+        # xor their clauses) and distinct for the model's structural equality - the gap declared in ASSUMPTIONS;
+        # such a pair inside one compound made the de-duplication differ (thorough seed 0).  The eq stream and the
+        # end-to-end streams keep free Not boosts.
+        nb = random.Random("%s:%d:notboost" % (seed, i)).choice(G.BOOSTS)
+        _set_not_boosts(q, nb)
+        _set_not_boosts(q2, nb)
         try:
             qs, q2s_ = G.q2s(q), G.q2s(q2)
         except G.Unserializable:
